@@ -313,11 +313,14 @@ partial def loop (h : IO.FS.Stream) (s : DS) : IO Unit := do
       let (tw, two) := match Own.eraseOp s.g s.r op with
         | some (e, top) => Own.step e s.o top
         | none => (s.o, none)
-      let tr := if two == o || (two.isNone && o.isNone) then Own.traceSince tw.heap n0 else "!twin-desync"
+      let tr := if !(two == o || (two.isNone && o.isNone)) then "!twin-desync"
+                else if !(Own.sim r tw) && o != some .panic then "!twin-sim"
+                else Own.traceSince tw.heap n0
+      let own := Own.showOwn tw
       match o with
       | some .panic => IO.println s!"{tag} panic"; loop h { s with r, o := tw, ph := .dead }
-      | some w => IO.println s!"{tag} {showRes w} w={showW (opWrites s.r r rf)} tr={tr}"; loop h { s with r, o := tw }
-      | none => IO.println s!"{tag} w={showW (opWrites s.r r rf)} tr={tr}"; loop h { s with r, o := tw }
+      | some w => IO.println s!"{tag} {showRes w} w={showW (opWrites s.r r rf)} own={own} tr={tr}"; loop h { s with r, o := tw }
+      | none => IO.println s!"{tag} w={showW (opWrites s.r r rf)} own={own} tr={tr}"; loop h { s with r, o := tw }
     | .dead => IO.println "dead"; loop h s
     | .done => IO.println "done"; loop h s
     | .none => IO.println "bad-op"; loop h s
